@@ -17,6 +17,8 @@ mod c14;
 mod c20;
 mod c12;
 mod c10;
+mod jax;
+mod c09;
 mod c06;
 mod c04;
 mod c17;
@@ -58,6 +60,7 @@ fn main() {
         "C07" => cbin::cases_c07(&mut rng, count, tier),
         "C08" => cbin::cases_c08(&mut rng, count, tier),
         "C16" => cworld::cases_c16(&mut rng, count, tier),
+        "C09" => c09::cases(&mut rng, count, tier),
         "C10" => c10::cases(&mut rng, count, tier),
         "C11" => c11::cases(&mut rng, count, tier),
         "C12" => c12::cases(&mut rng, count, tier),
